@@ -204,11 +204,26 @@ func (c *SimClient) observe(m *ServerComMessage) {
 	if m.Ctrl == nil {
 		return
 	}
+	if m.Ctrl.Code == 205 && m.Ctrl.Id == "" && m.Ctrl.Topic != "" {
+		delete(c.Attached, m.Ctrl.Topic) // evicted from that topic
+		return
+	}
 	s := c.byID[m.Ctrl.Id]
 	if s == nil || s.Msg == nil {
 		return
 	}
 	ok := m.Ctrl.Code >= 200 && m.Ctrl.Code < 300
+	// the mode reported back: a mode without J means the session is not (or no longer) attached
+	noJoin := false
+	if pm, _ := m.Ctrl.Params.(map[string]any); pm != nil && ok {
+		if am, _ := pm["acs"].(map[string]any); am != nil {
+			if u, _ := pm["user"].(string); u == "" {
+				if mode, _ := am["mode"].(string); mode != "" && !strings.ContainsAny(mode, "Jj") {
+					noJoin = true
+				}
+			}
+		}
+	}
 	switch {
 	case s.Msg.Hi != nil && ok:
 		c.HiDone = true
@@ -221,8 +236,13 @@ func (c *SimClient) observe(m *ServerComMessage) {
 			c.W.noteCreated(s, name)
 		}
 		c.Attached[name] = true
-	case s.Msg.Leave != nil && ok:
+		if noJoin {
+			delete(c.Attached, name)
+		}
+	case s.Msg.Leave != nil && (ok || m.Ctrl.Code == 304):
 		delete(c.Attached, s.Msg.Leave.Topic)
+	case s.Msg.Set != nil && noJoin:
+		delete(c.Attached, s.Msg.Set.Topic)
 	}
 }
 
